@@ -756,7 +756,7 @@ func C14() *engine.Check {
 	return &engine.Check{
 		Property: "C14",
 		Level:    "model_checking",
-		Subs:     []*engine.Sub{c14KeptSub(), c14SelectorSub(), c14LongSub(), c14PolicySub(), c14ConstructedSub(), c14SharedSub(), c14CtorSelSub()},
+		Subs:     []*engine.Sub{c14KeptSub(), c14SelectorSub(), c14LongSub(), c14PolicySub(), c14ConstructedSub(), c14SharedSub(), c14CtorSelSub(), selCollideSub("C14")},
 		Assumptions: []string{
 			"rejected selector texts carry no obligation; accepted normalisations of the printed form: '?' after an identity dot dropped, leading zeros of bracketed integers dropped; anything else counts as a dropped or altered part",
 			"policy nodes are generated from a grammar of statement shapes (operator x arity x argument kind), not from arbitrary IPLD",
